@@ -21,6 +21,12 @@ for P in progs:
                     if k and k in keys:
                         edges.add('%s -> %s' % (j['key'], k))
 d['edges'] = sorted(edges)
+from analysis.core.mirinline import body_hash
+hashes = {}
+for P in progs:
+    for j in P.facts['fns']:
+        hashes.setdefault(j['key'], set()).add(body_hash(j))
+d['hashes'] = {k: sorted(v) for k, v in sorted(hashes.items())}
 d['comment'] = d.get('comment', '') 
 json.dump(d, open(p, 'w'), indent=0)
-print(len(edges), 'edges')
+print(len(edges), 'edges', len(hashes), 'hashed bodies')
